@@ -242,6 +242,49 @@ def cache_histories(tier='quick'):
             if any(c != 1 for c in calls.values()) or len(calls) != m:
                 _fail(fails, sc, 'computes-each-example-at-most-once', calls, 'every count == 1')
                 return cases, fails
+    # "every access returns the value the pipeline produced the first time": also after the consumer changed a handed-out
+    # example in place (dict / list / tuple holding a list / nested tuple / what zip yields), read back by every path
+    import copy as _copy
+    shapes = {'dict': lambda x: {'v': [x]}, 'list': lambda x: [x, [x]], 'tuple-with-list': lambda x: (x, [x]),
+              'nested-tuple': lambda x: ((x, [x]), 'label'), 'flat-tuple': lambda x: (x, 'label')}
+
+    def _mut(v):
+        if isinstance(v, dict):
+            for k in list(v):
+                _mut(v[k])
+            v['added'] = 1
+        elif isinstance(v, list):
+            for e in v:
+                _mut(e)
+            v.append(99)
+        elif isinstance(v, tuple):
+            for e in v:
+                _mut(e)
+    for shape, mkv in list(shapes.items()) + [('zip', None)]:
+        for first_by in ('idx', 'key', 'iter'):
+            cases += 1
+            base = lazy_dataset.new(dict(zip(keys, range(n))))
+            if shape == 'zip':
+                ds = base.map(lambda x: [x]).zip(base.map(lambda x: {'v': [x]})).cache()
+                if first_by == 'key':
+                    continue
+            else:
+                ds = base.map(mkv).cache()
+            got = {'idx': lambda: [ds[1]], 'key': lambda: [ds[keys[1]]], 'iter': lambda: list(ds)}[first_by]()
+            snap = _copy.deepcopy(list(ds))
+            for v in got:
+                _mut(v)
+            reads = [('iteration', lambda: list(ds)), ('index', lambda: [ds[i] for i in range(n)]), ('negative index', lambda: [ds[i - n] for i in range(n)]),
+                     ('slice', lambda: [None] + list(ds[1:3]) + [None]), ('frozen copy', lambda: list(ds.copy(freeze=True)))]
+            if shape != 'zip':
+                reads += [('key', lambda: [ds[k] for k in keys]), ('items', lambda: [v for _, v in ds.items()])]
+            for label, rd in reads:
+                r = rd()
+                want = snap if label != 'slice' else [None] + snap[1:3] + [None]
+                if repr(r) != repr(want):
+                    _fail(fails, 'cache of %s examples: first read by %s, that example changed in place, then read by %s' % (shape, first_by, label),
+                          'returns-the-first-computed-value', r, want)
+                    return cases, fails
     # memory threshold: entries cached before the threshold stay frozen, later ones are not cached
     import psutil
     real = psutil.virtual_memory
@@ -260,11 +303,9 @@ def cache_histories(tier='quick'):
                 calls[x] = calls.get(x, 0) + 1
                 cnt[0] += 1
                 return (x, cnt[0])
-            state = {'n': 0}
-
             def fake():
-                state['n'] += 1
-                return VM(10 ** 11 if state['n'] <= cross else 0)
+                # the free memory is a function of what has happened (examples computed so far), not of how often it is read
+                return VM(10 ** 11 if cnt[0] <= cross else 0)
             psutil.virtual_memory = fake
             ds = lazy_dataset.new(list(range(n))).map(f).cache(keep_mem_free='1 GB')
             import warnings
@@ -280,6 +321,12 @@ def cache_histories(tier='quick'):
                     return cases, fails
             if any(calls.get(i, 0) > 1 for i in range(min(cross, n))):
                 _fail(fails, 'cache with the memory threshold crossed after %d stores' % cross, 'cached-before-not-recomputed', calls, '<=1')
+                return cases, fails
+            # "once the threshold is crossed no further examples are cached": those are computed again in every pass
+            late = [i for i in range(cross, n) if calls.get(i, 0) < 3]
+            if late:
+                _fail(fails, 'cache with the memory threshold crossed after %d stores' % cross, 'nothing-is-cached-after-the-threshold',
+                      'examples %r were computed %r times in three passes' % (late, [calls.get(i, 0) for i in late]), 'three times each')
                 return cases, fails
     finally:
         psutil.virtual_memory = real
@@ -1005,6 +1052,25 @@ def parallel_equals_sequential(tier='quick'):
                                 _fail(fails, '%s, n=%d workers=%d buffer=%d' % (name, n, w, b), 'same length', lp, ls)
                         except TypeError:
                             pass
+    # batch_map with workers: every batch keeps the order of its examples, also when an earlier example takes longer
+    import time
+
+    def slow_first(x):
+        time.sleep(0.02 if x % 3 == 0 else 0.0)
+        return x * 10
+    for n, bs in ((7, 3), (6, 2), (5, 5)):
+        for w in (1, 2, 3):
+            for backend in ('t',):
+                cases += 1
+                base = lazy_dataset.new({'k%d' % i: i for i in range(n)})
+                exp = list(base.batch(bs).batch_map(slow_first))
+                try:
+                    got = list(base.batch(bs).batch_map(slow_first, num_workers=w, buffer_size=w + 1, backend=backend))
+                except Exception as e:      # noqa
+                    got = '%s: %s' % (type(e).__name__, str(e)[:80])
+                if got != exp:
+                    _fail(fails, 'batch(%d).batch_map(f slow on every 3rd example, num_workers=%d) over %d examples' % (bs, w, n),
+                          'parallel = sequential', got, exp)
     return cases, fails
 
 
@@ -1093,6 +1159,63 @@ def diskcache_lifecycles(tier='quick'):
                                 _fail(fails, sc, 'reopened with clear=True: removed at release', 'exists', 'removed')
                         if len(fails) > 4:
                             return cases, fails
+        # every access path stores under one identity: what the writer read by key / index of either sign / iteration / items
+        # is served to a reader (same process, new dataset, reuse=True) by ANY path without recomputing
+        keys = ['k%d' % i for i in range(n)]
+        paths = {'key': lambda d, i: d[keys[i]], 'index': lambda d, i: d[i], 'negative index': lambda d, i: d[i - n],
+                 'iteration': lambda d, i: list(d)[i], 'items': lambda d, i: dict(list(d.items()))[keys[i]],
+                 'slice': lambda d, i: list(d[i:i + 1])[0], 'copy': lambda d, i: d.copy(freeze=True)[i]}
+        for wname, wpath in paths.items():
+            for rname, rpath in paths.items():
+                cases += 1
+                calls = []
+
+                def f(x, calls=calls):
+                    calls.append(x)
+                    return {'v': x * 10}
+                d = os.path.join(root, 'p%d' % cases)
+                sc = 'diskcache over a dict dataset: written through %s, read through %s' % (wname, rname)
+                src = lazy_dataset.new(dict(zip(keys, range(n)))).map(f)
+                ds = src.diskcache(d, reuse=False, clear=False)
+                w = [wpath(ds, i) for i in (1, 2)]
+                whole = wname in ('iteration', 'items')
+                del calls[:]
+                same = [rpath(ds, i) for i in (1, 2)]          # the writer itself, other path
+                if same != w or (calls and not (rname in ('iteration', 'items') and set(calls) <= {0, 3} and not whole)):
+                    _fail(fails, sc + ' (same dataset)', 'stored examples are served without recomputing', (same, sorted(calls)), (w, 'no call for 1, 2'))
+                del ds
+                gc.collect()
+                del calls[:]
+                ds2 = src.diskcache(d, reuse=True, clear=True)
+                r = [rpath(ds2, i) for i in (1, 2)]
+                if r != w or any(c in (1, 2) for c in calls):
+                    _fail(fails, sc + ' (reopened, reuse=True)', 'stored examples are served without recomputing', (r, sorted(calls)), (w, 'no call for 1, 2'))
+                del ds2
+                gc.collect()
+                if os.path.isdir(d):
+                    _fail(fails, sc, 'reopened with clear=True: removed at release', 'exists', 'removed')
+                if len(fails) > 4:
+                    return cases, fails
+        # reopen with clear=True and release WITHOUT reading anything (also: only a copy taken): the directory goes
+        for taken in ('nothing', 'copy only', 'len only'):
+            cases += 1
+            d = os.path.join(root, 'q%d' % cases)
+            src = lazy_dataset.new(list(range(n))).map(lambda x: {'v': x})
+            ds = src.diskcache(d, reuse=False, clear=False)
+            ds[0]
+            del ds
+            gc.collect()
+            ds2 = src.diskcache(d, reuse=True, clear=True)
+            if taken == 'copy only':
+                c2 = ds2.copy(freeze=True)
+                del c2
+            elif taken == 'len only':
+                len(ds2)
+            del ds2
+            gc.collect()
+            if os.path.isdir(d):
+                _fail(fails, 'diskcache(existing directory, reuse=True, clear=True) released after %s' % taken,
+                      'directory removed after the last release iff clear=True', 'exists', 'removed')
     finally:
         shutil.rmtree(root, ignore_errors=True)
     return cases, fails
@@ -1216,4 +1339,176 @@ def keyless_snapshots(tier='quick'):
                     got = '%s: %s' % (type(e).__name__, str(e)[:80])
                 if got != want:
                     fails.append({'scenario': '%s(%s over list[%d])' % (how, name, n), 'mismatches': [{'clause': 'key-less-snapshot', 'observed': repr(got)[:200], 'expected': repr(want)[:200]}]})
+    return cases, fails
+
+
+# ------------------------------------------------------------------ prefetch(catch_filter_exception=...) (C04, C06, C14)
+def prefetch_catch_matrix(tier='quick'):
+    """PrefetchDataset / prefetch() with catch_filter_exception in {True, FilterException, A, (A, KeyError)} x workers
+    {1, 2} x values / items, over 5 (7) examples of which every subset of up to 2 positions raises one of FilterException,
+    a subclass of it, A, a subclass of A, KeyError, ValueError: exactly the examples whose exception is an instance of a
+    selected type are omitted, all others arrive in order, the first other exception arrives after every example that
+    precedes it."""
+    os.environ.setdefault('OMP_NUM_THREADS', '1')
+    os.environ.setdefault('MKL_NUM_THREADS', '1')
+    import lazy_dataset
+    from lazy_dataset import FilterException
+    fails, cases = [], 0
+
+    class SubFilter(FilterException):
+        pass
+
+    class A(Exception):
+        pass
+
+    class SubA(A):
+        pass
+    n = 5 if tier == 'quick' else 7
+    keys = ['k%d' % i for i in range(n)]
+    selections = {'True': (True, (FilterException,)), 'FilterException': (FilterException, (FilterException,)),
+                  'A': (A, (A,)), '(A, KeyError)': ((A, KeyError), (A, KeyError))}
+    excs = [FilterException, SubFilter, A, SubA, KeyError, ValueError]
+    subsets = [()] + [(i,) for i in range(n)] + ([(0, 2), (1, n - 1), (n - 2, n - 1)])
+    for sel_name, (sel, sel_types) in selections.items():
+        for workers, buf in ((1, 2), (2, 2)):
+            for bad in subsets:
+                for e1, e2 in itertools.product(excs, excs if (len(bad) == 2 and tier != 'quick') else excs[:1]):
+                    kinds = dict(zip(bad, (e1, e2)))
+                    if len(bad) == 2 and tier == 'quick':
+                        kinds = {bad[0]: e1, bad[1]: excs[(excs.index(e1) + 2) % len(excs)]}
+
+                    def f(x, kinds=kinds):
+                        if x in kinds:
+                            raise kinds[x](x)
+                        return None if x == 3 else x * 10         # None is an ordinary example
+                    want, end = [], None
+                    for i in range(n):
+                        if i in kinds:
+                            if issubclass(kinds[i], sel_types):
+                                continue
+                            end = kinds[i].__name__
+                            break
+                        want.append((keys[i], None if i == 3 else i * 10))
+                    for items in (False, True):
+                        cases += 1
+                        ds = lazy_dataset.new(dict(zip(keys, range(n)))).map(f).prefetch(workers, buf, catch_filter_exception=sel)
+                        got, gend = [], None
+                        try:
+                            for x in (ds.items() if items else ds):
+                                got.append(x)
+                        except BaseException as e:      # noqa
+                            gend = type(e).__name__
+                        exp = want if items else [v for _, v in want]
+                        if got != exp or gend != end:
+                            _fail(fails, 'new(dict of %d).map(f raising %s).prefetch(%d, %d, catch_filter_exception=%s)%s'
+                                  % (n, {i: k.__name__ for i, k in kinds.items()}, workers, buf, sel_name, '.items()' if items else ''),
+                                  'drops-exactly-the-selected-exceptions', (got, gend), (exp, end))
+                            if len(fails) >= 3:
+                                return cases, fails
+    return cases, fails
+
+
+# ------------------------------------------------------------------ read-ahead at dataset level (C07)
+def _slow_g(x):
+    import time
+    time.sleep(0.03)
+    return x
+
+
+def _fast_g(x):
+    return x
+
+
+def readahead_dataset_level(tier='quick'):
+    """C07 measured through the dataset classes (not only on lazy_parallel_map / single_thread_prefetch themselves):
+    src.map(f0).map(g, num_workers=w, buffer_size=b, backend=...) and src.map(f0).prefetch(w, b, backend=...) over 24
+    examples with a consumer that pauses 0.12 s after each of its first 6 reads: applications of f0 (source examples
+    pulled) beyond the examples delivered <= b + 2; applications of g started beyond those delivered <= b (thread
+    backends, where they are visible).  Process backends: the source side (f0 runs in the parent for a parallel map)."""
+    os.environ.setdefault('OMP_NUM_THREADS', '1')
+    os.environ.setdefault('MKL_NUM_THREADS', '1')
+    import threading
+    import time
+    import lazy_dataset
+    fails, cases = [], 0
+    n = 24
+    configs = []
+    for w, b in ((1, 1), (1, 3), (2, 2), (2, 4)):
+        configs.append(('map(g, num_workers=%d, buffer_size=%d, backend=t)' % (w, b), 'parmap', w, b, 't', _fast_g))
+        configs.append(('map(slow g, num_workers=%d, buffer_size=%d, backend=t)' % (w, b), 'parmap', w, b, 't', _slow_g))
+    for b in (1, 2, 4):
+        configs.append(('prefetch(1, %d)' % b, 'prefetch', 1, b, 't', None))
+    configs.append(('prefetch(2, 3)', 'prefetch', 2, 3, 't', None))
+    for bk in (('multiprocessing', 'concurrent_mp') if tier == 'quick' else ('multiprocessing', 'concurrent_mp', 'mp', 'dill_mp')):
+        configs.append(('map(g, num_workers=2, buffer_size=3, backend=%s)' % bk, 'parmap', 2, 3, bk, _fast_g))
+    for label, kind, w, b, bk, g in configs:
+        cases += 1
+        lock = threading.Lock()
+        st = {'pulled': 0, 'started': 0}
+
+        def f0(x):
+            with lock:
+                st['pulled'] += 1
+            return x
+
+        def gl(x, g=g):
+            with lock:
+                st['started'] += 1
+            return g(x)
+        src = lazy_dataset.new(list(range(n))).map(f0)
+        try:
+            if kind == 'parmap':
+                ds = src.map(gl if bk == 't' else g, num_workers=w, buffer_size=b, backend=bk)
+            else:
+                ds = src.prefetch(w, b, backend=bk)
+            it = iter(ds)
+            worst = worst_started = delivered = 0
+            try:
+                for _ in range(6):
+                    next(it)
+                    delivered += 1
+                    time.sleep(0.12)
+                    with lock:
+                        worst = max(worst, st['pulled'] - delivered)
+                        worst_started = max(worst_started, st['started'] - delivered)
+            finally:
+                it.close()
+        except Exception as e:      # noqa
+            _fail(fails, 'list of %d .map(f0).%s' % (n, label), 'runs', '%s: %s' % (type(e).__name__, str(e)[:100]), 'iterates')
+            continue
+        # "at every moment": the excess seen by f0 itself at the instant it is applied (consumer reading as fast as it can, then
+        # with short pauses), not only at the consumer's pause points
+        if bk == 't':
+            for pause in (0.0, 0.02):
+                st2 = {'pulled': 0, 'delivered': 0, 'worst': 0}
+
+                def f1(x):
+                    with lock:
+                        st2['pulled'] += 1
+                        st2['worst'] = max(st2['worst'], st2['pulled'] - st2['delivered'])
+                    return x
+                src2 = lazy_dataset.new(list(range(n))).map(f1)
+                ds2 = src2.map(g, num_workers=w, buffer_size=b, backend=bk) if kind == 'parmap' else src2.prefetch(w, b, backend=bk)
+                it2 = iter(ds2)
+                try:
+                    for _ in range(12):
+                        next(it2)
+                        with lock:
+                            st2['delivered'] += 1
+                        if pause:
+                            time.sleep(pause)
+                finally:
+                    it2.close()
+                if st2['worst'] > b + 2:
+                    _fail(fails, 'list of %d .map(f0).%s, consumer pausing %.2f s after each read' % (n, label, pause), 'source-read-ahead-at-every-moment',
+                          'when f0 was applied, %d examples were pulled beyond those delivered' % st2['worst'], '<= buffer_size + 2 = %d' % (b + 2))
+                    break
+        if worst > b + 2:
+            _fail(fails, 'list of %d .map(f0).%s, consumer pausing 0.12 s after each read' % (n, label), 'source-read-ahead',
+                  'f0 applied to %d examples beyond those delivered' % worst, '<= buffer_size + 2 = %d' % (b + 2))
+        elif kind == 'parmap' and bk == 't' and worst_started > b:
+            _fail(fails, 'list of %d .map(f0).%s, consumer pausing 0.12 s after each read' % (n, label), 'applications-started-ahead',
+                  'g started on %d examples beyond those delivered' % worst_started, '<= buffer_size = %d' % b)
+        if len(fails) >= 3:
+            break
     return cases, fails
